@@ -12,3 +12,17 @@ prop("C04", ["contracts.c04_codec"],
      ["EncodeRaw", "EncodeRawBool", "DecodeRaw", "DecodeRawBool", "DecodeWrongLength", "DecodeEncode", "EncodeDecode",
       "VarLen"],
      not_decided=["IEEE-754 values of REAL32/REAL64 and the ASCII / UTF-16-LE codecs are CPython's struct/codecs (only the table entry and the wrong-length rejection are proved)"])
+
+prop("C05", ["contracts.c04_codec", "contracts.c05_pdovar"], ["PdoGet", "PdoSet", "VarLen"],
+     not_decided=["REAL32/REAL64 mapped at unaligned offsets (float kind is opaque to the engine)"])
+
+prop("C16", ["contracts.c16_emcy"], ["OnEmcy", "EmcyReset", "EmcyAddCallback", "EmcySend", "EmcyGetDesc", "EmcyWait"],
+     assumed=["A5 user callbacks do not re-enter the consumer and do not raise", "Network.send_message hands the frame to the bus (env/net.py)"],
+     not_decided=["time-out behaviour of EmcyConsumer.wait in real time (condition variable)"])
+
+prop("C10", ["contracts.c10_network"],
+     ["Subscribe", "Unsubscribe", "Notify", "SendMessage", "PeriodicInit", "ListenerDispatch", "Scanner", "ScannerReset",
+      "RemoteAssociate", "LocalAssociate", "AddSdo", "NetSetItem"],
+     assumed=["A5 callbacks do not mutate the subscription table while being dispatched and do not raise (unknown-prefix loop summary)",
+              "python-can Bus.send / send_periodic receive the Message built by the library (env/stubs.py BusStub)"],
+     not_decided=["callbacks that mutate the subscription table during dispatch; real thread interleavings of notify and subscribe"])
